@@ -75,7 +75,7 @@ pub fn drive_hash(t: &mut Tracer, tier: &str, seed: u64, plan: Option<String>) {
     }
     for _ in 0..(if thorough { 3000 } else { 300 }) { from_hash(t, sess(), &rng.bytes(40), "random"); }
     // H1 / H2 wrappers on identities of 0..300 bytes
-    let lens: Vec<usize> = if thorough { (0..=300).collect() } else { vec![0, 1, 5, 31, 32, 55, 56, 64, 100, 300] };
+    let lens: Vec<usize> = if thorough { (0..=300).collect() } else { vec![0, 1, 5, 31, 32, 49, 50, 55, 56, 64, 100, 300] };      // 49 / 50: the H1 input 01 || ID || hid || ct at SM3's padding boundary
     for (i, len) in lens.iter().enumerate() {
         let id = rng.bytes(*len);
         let hid = [1u8, 2, 3][i % 3];
@@ -166,7 +166,7 @@ pub fn drive_sign(t: &mut Tracer, tier: &str, seed: u64, plan: Option<String>) {
     // master keys x identities x message lengths; free r and fixed boundary r
     let nkeys = if thorough { 10 } else { 2 };
     let g = Gen::new("mix", rng.below(1 << 20));
-    let lens: Vec<usize> = if thorough { vec![0, 1, 31, 32, 64, 100, 500, 1024] } else { vec![0, 20, 300] };
+    let lens: Vec<usize> = if thorough { vec![0, 1, 31, 32, 50, 51, 64, 100, 114, 500, 1024] } else { vec![0, 20, 50, 51, 300] };   // 50 / 51: the H2 input 02 || M || w || ct at SM3's padding boundary
     let mut valid: Vec<(SignCtx, Vec<u8>, Vec<u8>, U256, Point, Vec<u8>)> = vec![];
     for ki in 0..nkeys {
         let c = sign_ctx(&scalar(&mut rng));
@@ -280,13 +280,13 @@ pub fn drive_encrypt(t: &mut Tracer, tier: &str, seed: u64, plan: Option<String>
         }
     }
     // every message length 1..=255 (quick: boundary subset)
-    let lens: Vec<usize> = if thorough { (1..=255).collect() } else { vec![1, 2, 31, 32, 33, 64, 100, 223, 224, 254, 255] };
+    let lens: Vec<usize> = if thorough { (1..=255).collect() } else { vec![1, 2, 23, 24, 31, 32, 33, 64, 87, 100, 223, 224, 254, 255] };     // 23 / 24 / 87: the C3 input C2 || K2 at SM3's padding boundary
     let g = Gen::new("mix", rng.below(1 << 20));
     let mut samples: Vec<(EncCtx, Vec<u8>, Vec<u8>)> = vec![];
     let c = enc_ctx(&scalar(&mut rng));
     for (i, len) in lens.iter().enumerate() {
         let c2 = if i % 7 == 3 { enc_ctx(&scalar(&mut rng)) } else { enc_ctx(&c.ke) };
-        let id = { let l = 1 + rng.below(24) as usize; rng.bytes(l) };
+        let id = { let l = match i % 6 { 1 => 51, 2 => 52, _ => 1 + rng.below(24) as usize }; rng.bytes(l) };     // 51 / 52: the KDF input C1 || w || ID || ct at SM3's padding boundary
         let m = g.msg(*len);
         if let Some((ct, r)) = encrypt_event(t, &sess(), &c2, &id, Some(&g), &m, vec![]) {
             decrypt_event(t, &sess(), &c2, &id, &id, &ct, Some(&r), "none");
@@ -409,6 +409,12 @@ pub fn drive_kex(t: &mut Tracer, tier: &str, seed: u64) {
         let (ida, idb) = (b"Alice".to_vec(), b"Bob".to_vec());
         let ke = ub(&gm_sm9::key::verif_hash1(if which == 0 { &idb } else { &ida }, 2));
         run(t, sess(), &ke, &ida, &idb, 32, vec![], vec![], "none", "none", &mut rng);
+    }
+    // identities whose total length puts the KDF input IDA || IDB || RA || RB || g1 || g2 || g3 || ct at SM3's padding boundary (55 / 56 mod 64)
+    for (la, lb) in [(25usize, 26usize), (26, 26)] {
+        let ke = scalar(&mut rng);
+        let (ida, idb) = (rng.bytes(la), rng.bytes(lb));
+        run(t, sess(), &ke, &ida, &idb, 40, vec![], vec![], "none", "none", &mut rng);
     }
     // honest runs, klen 1..=128
     let klens: Vec<usize> = if thorough { (1..=128).collect() } else { vec![1, 16, 32, 33, 100, 128] };
